@@ -1171,7 +1171,10 @@ class NestedPipeFunc(PipeFunc):
 
     @functools.cached_property
     def func(self) -> Callable[..., tuple[Any, ...]]:  # type: ignore[override]
-        func = self.pipeline.func(self.pipeline.unique_leaf_node.output_name)
+        # Request a single name: for a `tuple` request `run` stores only the raw tuple
+        # in the full output, not the individual outputs that are looked up below.
+        leaf_output_name = at_least_tuple(self.pipeline.unique_leaf_node.output_name)[0]
+        func = self.pipeline.func(leaf_output_name)
         # The inner pipeline knows the outputs by their original names (`_output_name`),
         # `output_name` has the renames (e.g., a scope) of this function applied.
         return _NestedFuncWrapper(func.call_full_output, self._output_name)
